@@ -94,7 +94,7 @@ class Increments(Machine):
                        "graph_edgeless", "graph_chain", "graph_cycle", "graph_tree", "graph_directed", "graph_directed_any",
                        "graph_tree_high_root",
                        "object_backed", "malformed_increment_refused", "active_count_lowered_between_increments",
-                       "rank_deficient_with_more_samples_than_features")
+                       "rank_deficient_with_more_samples_than_features", "one_iterator_feeds_constructor_and_increments")
 
     @classmethod
     def _cfg(cls, rng):
@@ -114,6 +114,9 @@ class Increments(Machine):
             cfg.update(V=V, k=k, graph=rng.choice(GRAPHS), mode=rng.choice(["concatenation", "subtraction"]),
                        sparse=rng.random() < 0.5, bias=rng.choice([0, 0, 1]), incremental=rng.random() < 0.93)
             cfg["n0"] = 2 * k + 3 + rng.randint(0, 6)
+        if fam.endswith("_obj") and rng.random() < 0.3:
+            # the caller feeds ONE iterator to the constructor and to every increment, with n_samples= each time
+            cfg["stream"] = 1
         return cfg
 
     @classmethod
@@ -201,7 +204,7 @@ class Increments(Machine):
                 ctx.probe("object_backed")
             self.pos = cfg["n0"]
             self.below = cfg["n0"] <= d
-            self.model = self._pca(X[:self.pos])
+            self.model = self._pca(X[:self.pos], live=True)
             self._compare_pca()
         else:
             V, k = cfg["V"], cfg["k"]
@@ -219,7 +222,7 @@ class Increments(Machine):
             ctx.probe("gmrf_" + cfg["mode"])
             if cfg["bias"]:
                 ctx.probe("gmrf_bias1")
-            self.model = self._gmrf(X[:self.pos], cfg["incremental"])
+            self.model = self._gmrf(X[:self.pos], cfg["incremental"], live=True)
             self._compare_gmrf()
 
     def _samples(self, rows):
@@ -227,15 +230,26 @@ class Increments(Machine):
             return rows.copy()
         return [self.tmpl.from_vector(r.copy()) for r in rows]
 
-    def _pca(self, rows):
-        cls_ = PCAVectorModel if self.tmpl is None else PCAModel
-        return cls_(self._samples(rows), centre=self.cfg["centred"], inplace=False)
+    def _feed(self, rows, live):
+        """What the long-lived model is fed with: a list, or (stream style) the shared iterator plus a count."""
+        if live and self.cfg.get("stream") and self.tmpl is not None:
+            if getattr(self, "stream", None) is None:
+                self.stream = (self.tmpl.from_vector(r.copy()) for r in self.X)
+            self.ctx.probe("one_iterator_feeds_constructor_and_increments")
+            return self.stream, {"n_samples": int(rows.shape[0])}
+        return self._samples(rows), {}
 
-    def _gmrf(self, rows, incremental):
+    def _pca(self, rows, live=False):
+        cls_ = PCAVectorModel if self.tmpl is None else PCAModel
+        arg, kw = self._feed(rows, live)
+        return cls_(arg, centre=self.cfg["centred"], inplace=False, **kw)
+
+    def _gmrf(self, rows, incremental, live=False):
         c = self.cfg
         cls_ = GMRFVectorModel if self.tmpl is None else GMRFModel
-        return cls_(self._samples(rows), self.graph, mode=c["mode"], sparse=c["sparse"], bias=c["bias"],
-                    incremental=incremental)
+        arg, kw = self._feed(rows, live)
+        return cls_(arg, self.graph, mode=c["mode"], sparse=c["sparse"], bias=c["bias"],
+                    incremental=incremental, **kw)
 
     def _bad_increment(self, op):
         """A malformed increment in the middle of the history (samples with the wrong number of features), which the
@@ -289,8 +303,13 @@ class Increments(Machine):
                 ctx.probe("rejected_increment")
                 ctx.ok()
             return
+        streamed = bool(self.cfg.get("stream")) and self.tmpl is not None
         try:
-            self.model.increment(arg)
+            if streamed:
+                feed, kw = self._feed(chunk, True)
+                self.model.increment(feed, **kw)
+            else:
+                self.model.increment(arg)
         except Exception as ex:
             ctx.fail("increment", "increment_raised_" + self.fam, "composition %r + %d: %r" % (self.comp, s, ex))
             return
